@@ -47,3 +47,7 @@ claim("C15", "DESIGN.md 3/C15",
       "for each of the 11 tests every logical series of length 0..3 (thorough 4) over {1,3,missing} is run with canonical carriers and with each of 17 data/aux carriers and 17 time carriers substituted one input at a time (and every data x time carrier pair for length<=2, spans as tuples); flags must equal the canonical ones",
       "differential oracle (no reference model); integer carriers only without missing values; epoch seconds inside a pandas Series not judged",
       TECH_TREE)
+claim("C16", "DESIGN.md 3/C16",
+      "for each of 10 threshold-driven tests every series of the bounded space is executed at every point of a 6-75 point parameter lattice and every ordered comparable (loose<=strict) pair is compared pointwise: severity never decreases, UNKNOWN/MISSING sets identical (quick: 0.4 M executions, 4.8 M pair comparisons)",
+      "metamorphic (no reference model); only comparable pairs judged; lattices are finite menus of thresholds/spans",
+      TECH_TREE + " + all-pairs relation check on the explored states")
